@@ -42,7 +42,7 @@ def rest_text(kw, rest):
     return out
 
 
-PRE = {"": "", "sp": " ", "tab": "\t", "spsp": "  ", "text": " see "}
+PRE = {"": "", "sp": " ", "tab": "\t", "spsp": "  ", "text": " see ", "slashes": " // ", "slashes0": "//", "tabslashes": "\t// "}
 KWTEXT = {"Immutable": "@Immutable", "at_space_immutable": "@ immutable", "no_at_immutable": "immutable"}
 
 
